@@ -318,6 +318,16 @@ def run_solver_case(ctx, case):
             state.update(tracker=None, steps=0, last_op=None)
             N = N0
             ctx.count("second_runs_of_the_same_solver_object")
+            if case["seed"] % 8 == 1:
+                # the solver's public filter attribute is re-assigned between the two runs
+                from job_shop_lib.dispatching import ready_operations_filter_factory
+                new_name = rng.choice([None, "non_immediate_machines", "non_idle_machines",
+                                       "dominated_operations"])
+                solver.ready_operations_filter = (None if new_name is None
+                                                  else ready_operations_filter_factory(new_name))
+                names = None if new_name is None else [new_name]
+                exact = not (names and "dominated_operations" in names and ref0.has_zero)
+                ctx.count("filter_reassigned_between_runs")
         api = case["api"]
         t0 = time.perf_counter()
         try:
@@ -325,6 +335,14 @@ def run_solver_case(ctx, case):
                 S = solver.solve(instance)
             elif api == "solve_dispatcher":
                 d = Dispatcher(instance, ready_operations_filter=solver.ready_operations_filter)
+                if case["seed"] % 3 == 2:
+                    # the caller's dispatcher was used before and reset
+                    tr0 = Tracker(inst, d)
+                    for _ in range(rng.randint(1, N)):
+                        o0 = rng.choice(tr0.r.ready())
+                        d.dispatch(ops[o0], rng.choice(tr0.r.op_machines[o0]))
+                    d.reset()
+                    ctx.count("solver_given_a_reset_dispatcher")
                 S = solver.solve(instance, d)
             elif api == "solve_partial":
                 # the solver takes over a dispatcher that already holds a partial schedule
